@@ -76,7 +76,7 @@ claim('C01', 'translation_validation',
 
 claim('C02', 'translation_validation',
       'Families of graph functions (width-first units x optimiser rewrites, multi-output units and nested expansion '
-      'with symbolic channel counts, sums over a symbolic number of generators up to 40/300, definition names of '
+      'with symbolic channel counts, sums over a symbolic number of generators up to 40/80, definition names of '
       '0..257 characters, parameters of several sizes/rates with and without gate, invalid graphs) are built by the '
       'real SynthDef with symbolic constants; per path an independent SCgf-2 reader must consume the bytes exactly, '
       'all inputs refer to constants or strictly earlier outputs, width-first units precede everything created after '
